@@ -56,6 +56,14 @@ func genTree(root *pkgInfo) string {
 		items = append(items, fmt.Sprintf("(%s, %s)", leanStr(f[0]+"."+f[1]), leanStr(bodyFingerprint(findFunc(root, f[0], f[1])))))
 	}
 	b.WriteString(strings.Join(items, ",\n   ") + "]\n\n")
+	b.WriteString("/-- the same for the navigation functions `Model/Cursor` transcribes -/\ndef cursorFns : List (String × String) :=\n  [")
+	items = nil
+	for _, f := range [][2]string{{"Cursor", "First"}, {"Cursor", "first"}, {"Cursor", "Last"}, {"Cursor", "last"}, {"Cursor", "Next"}, {"Cursor", "next"},
+		{"Cursor", "Prev"}, {"Cursor", "prev"}, {"Cursor", "Seek"}, {"Cursor", "seek"}, {"Cursor", "goToFirstElementOnTheStack"},
+		{"Cursor", "search"}, {"Cursor", "searchNode"}, {"Cursor", "searchPage"}, {"Cursor", "nsearch"}, {"Cursor", "keyValue"}, {"elemRef", "isLeaf"}, {"elemRef", "count"}} {
+		items = append(items, fmt.Sprintf("(%s, %s)", leanStr(f[0]+"."+f[1]), leanStr(bodyFingerprint(findFunc(root, f[0], f[1])))))
+	}
+	b.WriteString(strings.Join(items, ",\n   ") + "]\n\n")
 	b.WriteString("end Bolt.Gen\n")
 	return b.String()
 }
